@@ -440,6 +440,10 @@ let run_raw (lines : string list) =
         | "get" -> step (RGet (nn 1)) (function OGet o -> "g " ^ opt o | _ -> "?")
         | "rem" -> step (RRem (nn 1)) (function ORem o -> "r " ^ opt o | _ -> "?")
         | "clear" -> step RClear (fun _ -> "c")
+        | "reserve" when (String.length tk.(1) >= 18) ->
+          (* a request of 2^59 slots or more cannot be allocated: the crate's call fails with "capacity overflow" and must
+             leave the table as it was (the model has no allocator: the refusal is the driver's) *)
+          Printf.printf "v refused | %s\n" (state ())
         | "reserve" ->
           (match raw_reserve !t (nn 1) with
            | ROk t' -> t := t'; Printf.printf "v | %s\n" (state ())
